@@ -4,7 +4,8 @@ For each seed: apply patch -> build -> demo must FAIL -> pinned baseline suite m
 -> run all galaxycheck quick checks against the patched worktree (which fire?) -> revert -> demo must PASS.
 usage: verify_seeds.py [Cxx/a ...]"""
 import json,os,re,subprocess,sys,shutil,glob,concurrent.futures as cf
-SRC='/tmp/seedout'
+SRC=os.environ.get('SEED_SRC','/tmp/seedout')
+NMAP={'a':'a','b':'b'} if SRC=='/tmp/seedout' else {'a':'c','b':'d'}
 ENV=dict(os.environ,GOFLAGS='-mod=mod',GOPROXY='off',GOSUMDB='off',GOTOOLCHAIN='local')
 ENV.pop('GOWORK',None)
 def sh(cmd,cwd=None,timeout=3000):
@@ -13,12 +14,12 @@ def sh(cmd,cwd=None,timeout=3000):
 def one(seed):
     pid,n=seed.split('/')
     d=f'{SRC}/{seed}'
-    out=f'/verif/seeded/{pid}/{n}'
+    out=f'/verif/seeded/{pid}/{NMAP[n]}'
     os.makedirs(out,exist_ok=True)
     demos=glob.glob(d+'/*_test.go')
     notes=open(d+'/NOTES.md').read() if os.path.exists(d+'/NOTES.md') else ''
-    meta={'property':pid,'seed':seed,'ran':[]}
-    wt=f'/tmp/vs-{pid}{n}'
+    meta={'property':pid,'seed':pid+'/'+NMAP[n],'round':1 if SRC=='/tmp/seedout' else 2,'ran':[]}
+    wt=f'/tmp/vs-{pid}{NMAP[n]}'
     sh(f'git -C /repo worktree remove --force {wt}; git -C /repo worktree prune')
     rc,o=sh(f'git -C /repo worktree add -q --detach {wt} HEAD')
     try:
@@ -34,6 +35,12 @@ def one(seed):
             if not pkgdir:
                 m2=re.findall(r'((?:pkg|cni)/[A-Za-z0-9_/-]+/)',notes)
                 pkgdir=m2[0] if m2 else None
+            if not m:
+                # "<pkg>_seed_x_test.go" stored under another name than the intended one
+                for pre in ('floatingip_','schedulerplugin_','api_'):
+                    if base.startswith(pre):
+                        m3=re.findall(r'((?:pkg|cni)/[A-Za-z0-9_/.-]*?/'+pre[:-1]+r'/)'+re.escape(base[len(pre):]),notes)
+                        if m3: pkgdir=m3[0]; base=base[len(pre):]
             placed.append((demo,pkgdir,base))
         meta['demo']=[{'file':b,'intended_path':(p or '')+b} for _,p,b in placed]
         def run_demo():
